@@ -21,7 +21,7 @@ def main():
             "thorough_cmd": f"./check {pid} --tier thorough",
             "evidence_file": f"evidence/{pid}.json",
             "replay_cmd_template": f"./check {pid} --replay {{path}}",
-            "engine": "libfuzzer-structured" if spec["engine"] == "fuzz" else "hypothesis-cli",
+            "engine": {"fuzz": "libfuzzer-structured", "py": "hypothesis-cli", "fuzz+py": "libfuzzer-structured + hypothesis-cli"}[spec["engine"]],
             "level_claimed": {"category": spec["level"], "text": spec["level_text"], "design_ref": f"DESIGN.md section 4, {pid}"},
             "level_note": spec["level_note"],
             "technique": spec["technique"],
@@ -43,9 +43,9 @@ def main():
             "add_only": True,
         },
         "engines": [
-            {"name": "libfuzzer-structured", "path": "harness/", "serves_properties": [p for p in ids if props.PROPS.get(p, {}).get("engine") == "fuzz"],
+            {"name": "libfuzzer-structured", "path": "harness/", "serves_properties": [p for p in ids if "fuzz" in props.PROPS.get(p, {}).get("engine", "")],
              "kind_free_text": "libFuzzer targets (clang 14, ASan+UBSan, asserts on) with a structure-aware case decoder and custom mutator (vgen.h, vmut.cc); seeded generation + coverage guidance; own shrinker keeps the signature"},
-            {"name": "hypothesis-cli", "path": "py/", "serves_properties": [p for p in ids if props.PROPS.get(p, {}).get("engine") == "py"],
+            {"name": "hypothesis-cli", "path": "py/", "serves_properties": [p for p in ids if "py" in props.PROPS.get(p, {}).get("engine", "")],
              "kind_free_text": "Hypothesis (python3-vt) scenarios driving the built xz/xzdec/lzmadec/scripts through subprocess, LD_PRELOAD fault shim"},
         ],
         "checks": checks,
